@@ -128,17 +128,89 @@ package zapslog
 //@   loop 1 invariant len(fields) == $idx + (#AG == 1 ? len(h.groups) : 0)
 //@   loop 1 invariant *h == old(*h) && elems_frame(type(string), zero(type([]string)))
 
+// A Handler is shared between goroutines and never written after NewHandler / WithAttrs / WithGroup
+// returned it (C09): options are applied only to the handler NewHandler has just allocated.
+//@ immutable exp/zapslog.Handler props C09 C18
+
 //@ iface exp/zapslog.HandlerOption.apply
 //@   params h
+//@   requires h != nil && unpublished(h)
 //@   modifies *h, $user
 
 //@ func exp/zapslog.NewHandler
-//@   props C18
+//@   props C18 C09
 //@   flags nopanic
 //@   requires core != nil && (forall k int :: 0 <= k && k < len(opts) ==> opts[k] != nil)
 //@   modifies $user
 //@   ensures fresh(result)
-//@   loop 1 invariant 0 <= $idx && $idx <= len(opts) && fresh(h) && type_frame(type(Handler))
+//@   loop 1 invariant 0 <= $idx && $idx <= len(opts) && fresh(h) && unpublished(h) && type_frame(type(Handler))
+
+//@ typeinv exp/zapslog.handlerOptionFunc f: f != nil
+
+//@ func (exp/zapslog.handlerOptionFunc).apply
+//@   props C09 C18
+//@   refines exp/zapslog.HandlerOption.apply
+//@   flags trust-callees-nopanic
+//@   requires handler != nil && unpublished(handler)
+//@   modifies *handler, $user
+
+//@ callback (exp/zapslog.handlerOptionFunc).apply.f
+//@   params h
+//@   requires h != nil && unpublished(h)
+//@   modifies *h, $user
+
+//@ func exp/zapslog.WithName
+//@   props C09 C18
+//@   flags nopanic
+//@   modifies nothing
+//@   ensures result != nil
+//@ func exp/zapslog.WithName$1
+//@   props C09 C18
+//@   refines callback:(exp/zapslog.handlerOptionFunc).apply.f
+//@   flags nopanic
+//@   requires h != nil && unpublished(h)
+//@   modifies h.name
+//@   ensures h.name == *name
+
+//@ func exp/zapslog.WithCaller
+//@   props C09 C18
+//@   flags nopanic
+//@   modifies nothing
+//@   ensures result != nil
+//@ func exp/zapslog.WithCaller$1
+//@   props C09 C18
+//@   refines callback:(exp/zapslog.handlerOptionFunc).apply.f
+//@   flags nopanic
+//@   requires handler != nil && unpublished(handler)
+//@   modifies handler.addCaller
+//@   ensures handler.addCaller == *enabled
+
+//@ func exp/zapslog.WithCallerSkip
+//@   props C09 C18 C15
+//@   flags nopanic
+//@   modifies nothing
+//@   ensures result != nil
+//@ func exp/zapslog.WithCallerSkip$1
+//@   props C09 C18 C15
+//@   refines callback:(exp/zapslog.handlerOptionFunc).apply.f
+//@   flags nopanic
+//@   requires log != nil && unpublished(log)
+//@   assumes -1000000 <= *skip && *skip <= 1000000 && -1000000 <= log.callerSkip && log.callerSkip <= 1000000
+//@   modifies log.callerSkip
+//@   ensures log.callerSkip == old(log.callerSkip) + *skip
+
+//@ func exp/zapslog.AddStacktraceAt
+//@   props C09 C18
+//@   flags nopanic
+//@   modifies nothing
+//@   ensures result != nil
+//@ func exp/zapslog.AddStacktraceAt$1
+//@   props C09 C18
+//@   refines callback:(exp/zapslog.handlerOptionFunc).apply.f
+//@   flags nopanic
+//@   requires log != nil && unpublished(log)
+//@   modifies log.addStackAt
+//@   ensures log.addStackAt == *lvl
 
 // The per-attribute function of Handle: converts the attribute, emits the pending groups once
 // before the first field that is not skipped, appends the field, and asks for the next attribute.
